@@ -151,6 +151,29 @@ func (g *cGraph) concatD(cv CV, d int) ([]cgPart, bool) {
 			return append(a, c...), ok1 && ok2
 		case (callIs(x, "bytes", "", "Clone") || callIs(x, "slices", "", "Clone")) && len(args) == 1:
 			return g.concatD(CV{cv.C, args[0]}, d+1)
+		case callIs(x, "slices", "", "Concat") && len(args) == 1:
+			lst := g.deep(CV{cv.C, args[0]})
+			sl, isSl := lst.V.(*ssa.Slice)
+			if !isSl {
+				return nil, false
+			}
+			al, isAl := sl.X.(*ssa.Alloc)
+			if !isAl {
+				return nil, false
+			}
+			elems, ok := g.arrayElemsRaw(CV{lst.C, al})
+			if !ok {
+				return nil, false
+			}
+			var out []cgPart
+			for _, e := range elems {
+				ps, ok := g.concatD(e, d+1)
+				if !ok {
+					return nil, false
+				}
+				out = append(out, ps...)
+			}
+			return out, true
 		case callIs(x, "bytes", "", "Join") && len(args) == 2:
 			sep, ok := g.concatD(CV{cv.C, args[1]}, d+1)
 			if !ok {
@@ -186,6 +209,21 @@ func (g *cGraph) concatD(cv CV, d int) ([]cgPart, bool) {
 			return append(a, cgPart{Val: g.deep(CV{cv.C, args[2]}), B64: true, Enc: g.b64Name(CV{cv.C, args[0]})}), ok
 		case callIs(x, "encoding/base64", "Encoding", "EncodeToString") && len(args) == 2:
 			return []cgPart{{Val: g.deep(CV{cv.C, args[1]}), B64: true, Enc: g.b64Name(CV{cv.C, args[0]})}}, true
+		}
+		// any other call that is handed byte/string material may assemble it in a way not modelled here:
+		// the construction is then NOT understood (an opaque result is not an atomic part)
+		for _, a := range args {
+			if isNilConst(a) {
+				continue
+			}
+			switch t := a.Type().Underlying().(type) {
+			case *types.Slice:
+				return nil, false
+			case *types.Basic:
+				if t.Info()&types.IsString != 0 {
+					return nil, false
+				}
+			}
 		}
 	}
 	return []cgPart{{Val: cv}}, true
